@@ -49,6 +49,14 @@ type Property struct {
 	KnownPredicates map[string]func(v *Violation) bool
 }
 
+var registry = map[string]*Property{}
+
+// Register adds a property to the global registry (called from init functions).
+func Register(p *Property) { registry[p.ID] = p }
+
+// Registry returns all registered properties.
+func Registry() map[string]*Property { return registry }
+
 // Violation is one failing case.
 type Violation struct {
 	Property string `json:"property"`
